@@ -8,8 +8,9 @@
    length len with nb letters B has residual >= 1/(T' len!), so the tolerance is not what makes order_ok pass.
    same_element g w1 w2: the two products agree exactly on all kept words.   T25 = 10^25, T4 = 10^4. *)
 From Coq Require Import List ZArith Bool.
+From Coq Require Import Reals.
 From RV Require Import Gen.Schemes C01.FreeAlg C01.Model C01.ProofsSaba C01.ProofsEos C01.ProofsJanus
-  C01.ProofsWhfast C01.ProofsWhfast17.
+  C01.ProofsWhfast C01.ProofsWhfast17 Common.Num Common.RealNum C01.Jerk C01.JerkProofs.
 Import ListNotations.
 Open Scope Z_scope.
 
@@ -105,6 +106,16 @@ Theorem C01_whfast_composition_kernel :
 Proof. exact (conj (proj1 (forallb_forall wh_comp_ok corr_small) wh_comp_all)
               (conj (proj1 (forallb_forall wh_comp_sharp corr_small) wh_comp_sharp_all) wh_comp_needs_corrector)). Qed.
 Print Assumptions C01_whfast_composition_kernel.
+
+(* Modified kick (reb_calculate_and_apply_jerk, used by EOS PMLF4/PMLF6), transcribed in C01/Jerk.v and compared bit for bit
+   with the C function: Newton's third law -- if test particles act back (testparticle_type != 0) or there are none
+   (N_active = N) the jerk kick leaves each component c of the total momentum sum_k m_k v_k unchanged, for all states,
+   all loop bounds and both values of gravity_ignore_terms' start indices.  (A flipped sign in either half breaks it.) *)
+Theorem C01_jerk_third_law : forall (c : nat) (v G : R) bs vs nact nreal starti startj tp,
+  length bs = length vs -> (tp = true \/ nact = nreal) ->
+  mom c bs (jerk RNum v G bs vs nact nreal starti startj tp) = mom c bs vs.
+Proof. exact jerk_momentum. Qed.
+Print Assumptions C01_jerk_third_law.
 
 (* Non-vacuity: the decision procedure rejects wrong claims (leapfrog of order 4; SABA2 of grading (6,2)),
    and the lists quantified over are the concrete non-empty lists of types. *)
